@@ -379,38 +379,39 @@ end outside
 
 /-! ## Scheduled times: recovery / death never precede the infection (durations non-negative)
 
-`Gen.<D>.setPrognosesTimers now d s g t` is the regenerated per-agent effect of `set_prognoses` on the `ti_*` arrays
-(`none` = nan): `now` is the current step, `d` the opaque drawn durations (one variable per occurrence), `g` the guard
+`Gen.<D>.setPrognosesTimers now simNow d s g t` is the regenerated per-agent effect of `set_prognoses` on the `ti_*` arrays
+(`none` = nan): `now` is the current step OF THE MODULE (`self.ti`), `simNow` the current step of the simulation
+(`self.sim.ti`; an unrelated rational: a module may run on its own timestep), `d` the opaque drawn durations (one variable per occurrence), `g` the guard
 atoms selecting the agents of each write, `t` the timers before.  Theorems are for ALL rational times and durations
 (`grind` over core `Rat`); "fresh" = nothing scheduled before (first infection). -/
 section timers
 open TimerOps
 
 /-- SIR: the infection time is the current step; recovery and death are scheduled at or after it. -/
-theorem C13_sir_timers (now : Rat) (d : Gen.Sir.SetPrognosesD) (s : Gen.Sir.Flags) (g : Gen.Sir.SetPrognosesTG)
+theorem C13_sir_timers (now simNow : Rat) (d : Gen.Sir.SetPrognosesD) (s : Gen.Sir.Flags) (g : Gen.Sir.SetPrognosesTG)
     (t : Gen.Sir.Timers) (hd : d.nonneg) (hu : g.p_uids = true) (hf : t = Gen.Sir.Timers.const none) :
-    (Gen.Sir.setPrognosesTimers now d s g t).ti_infected = some now ∧
-    leOpt (some now) (Gen.Sir.setPrognosesTimers now d s g t).ti_recovered = true ∧
-    leOpt (some now) (Gen.Sir.setPrognosesTimers now d s g t).ti_dead = true := by
+    (Gen.Sir.setPrognosesTimers now simNow d s g t).ti_infected = some now ∧
+    leOpt (some now) (Gen.Sir.setPrognosesTimers now simNow d s g t).ti_recovered = true ∧
+    leOpt (some now) (Gen.Sir.setPrognosesTimers now simNow d s g t).ti_dead = true := by
   subst hf
   simp only [Gen.Sir.setPrognosesTimers, Gen.Sir.Timers.const, Gen.Sir.SetPrognosesD.nonneg, oadd, leOpt] at *
   grind
 
 /-- SIS (reinfection possible): every infection reschedules recovery, whatever was scheduled before. -/
-theorem C13_sis_timers (now : Rat) (d : Gen.Sis.SetPrognosesD) (s : Gen.Sis.Flags) (g : Gen.Sis.SetPrognosesTG)
+theorem C13_sis_timers (now simNow : Rat) (d : Gen.Sis.SetPrognosesD) (s : Gen.Sis.Flags) (g : Gen.Sis.SetPrognosesTG)
     (t : Gen.Sis.Timers) (hd : d.nonneg) (hu : g.p_uids = true) :
-    (Gen.Sis.setPrognosesTimers now d s g t).ti_infected = some now ∧
-    leOpt (some now) (Gen.Sis.setPrognosesTimers now d s g t).ti_recovered = true := by
+    (Gen.Sis.setPrognosesTimers now simNow d s g t).ti_infected = some now ∧
+    leOpt (some now) (Gen.Sis.setPrognosesTimers now simNow d s g t).ti_recovered = true := by
   simp only [Gen.Sis.setPrognosesTimers, Gen.Sis.SetPrognosesD.nonneg, oadd, leOpt] at *
   grind
 
 /-- Measles, relative to the infection EVENT (exposure = the current step): every scheduled time is at or after it. -/
-theorem C13_measles_timers (now : Rat) (d : Gen.Measles.SetPrognosesD) (s : Gen.Measles.Flags) (g : Gen.Measles.SetPrognosesTG)
+theorem C13_measles_timers (now simNow : Rat) (d : Gen.Measles.SetPrognosesD) (s : Gen.Measles.Flags) (g : Gen.Measles.SetPrognosesTG)
     (t : Gen.Measles.Timers) (hd : d.nonneg) (hu : g.p_uids = true) (hf : t = Gen.Measles.Timers.const none) :
-    (Gen.Measles.setPrognosesTimers now d s g t).ti_exposed = some now ∧
-    leOpt (some now) (Gen.Measles.setPrognosesTimers now d s g t).ti_infected = true ∧
-    leOpt (some now) (Gen.Measles.setPrognosesTimers now d s g t).ti_recovered = true ∧
-    leOpt (some now) (Gen.Measles.setPrognosesTimers now d s g t).ti_dead = true := by
+    (Gen.Measles.setPrognosesTimers now simNow d s g t).ti_exposed = some now ∧
+    leOpt (some now) (Gen.Measles.setPrognosesTimers now simNow d s g t).ti_infected = true ∧
+    leOpt (some now) (Gen.Measles.setPrognosesTimers now simNow d s g t).ti_recovered = true ∧
+    leOpt (some now) (Gen.Measles.setPrognosesTimers now simNow d s g t).ti_dead = true := by
   subst hf
   simp only [Gen.Measles.setPrognosesTimers, Gen.Measles.Timers.const, Gen.Measles.SetPrognosesD.nonneg, oadd, leOpt] at *
   grind
@@ -420,42 +421,42 @@ theorem C13_measles_timers (now : Rat) (d : Gen.Measles.SetPrognosesD) (s : Gen.
     valuations): the inherited `SIR.set_prognoses` schedules recovery from the infection step with its own `p_death`
     draw; an agent that recovers in that draw and dies in Measles' own draw keeps it, before `ti_infected`. -/
 theorem C13_measles_timers_onset :
-    (∀ (now : Rat) (d : Gen.Measles.SetPrognosesD) (s : Gen.Measles.Flags) (g : Gen.Measles.SetPrognosesTG),
+    (∀ (now simNow : Rat) (d : Gen.Measles.SetPrognosesD) (s : Gen.Measles.Flags) (g : Gen.Measles.SetPrognosesTG),
       d.nonneg → g.p_uids = true →
-      leOpt (Gen.Measles.setPrognosesTimers now d s g (Gen.Measles.Timers.const none)).ti_infected
-            (Gen.Measles.setPrognosesTimers now d s g (Gen.Measles.Timers.const none)).ti_recovered = true ∧
-      leOpt (Gen.Measles.setPrognosesTimers now d s g (Gen.Measles.Timers.const none)).ti_infected
-            (Gen.Measles.setPrognosesTimers now d s g (Gen.Measles.Timers.const none)).ti_dead = true)
+      leOpt (Gen.Measles.setPrognosesTimers now simNow d s g (Gen.Measles.Timers.const none)).ti_infected
+            (Gen.Measles.setPrognosesTimers now simNow d s g (Gen.Measles.Timers.const none)).ti_recovered = true ∧
+      leOpt (Gen.Measles.setPrognosesTimers now simNow d s g (Gen.Measles.Timers.const none)).ti_infected
+            (Gen.Measles.setPrognosesTimers now simNow d s g (Gen.Measles.Timers.const none)).ti_dead = true)
     ∨ (∃ d ∈ Gen.Measles.SetPrognosesD.all01, ∃ g : Gen.Measles.SetPrognosesTG, ∃ s : Gen.Measles.Flags, g.p_uids = true ∧ d.nonneg ∧
-        leOpt (Gen.Measles.setPrognosesTimers 0 d s g (Gen.Measles.Timers.const none)).ti_infected
-              (Gen.Measles.setPrognosesTimers 0 d s g (Gen.Measles.Timers.const none)).ti_recovered = false) := by
+        leOpt (Gen.Measles.setPrognosesTimers 0 0 d s g (Gen.Measles.Timers.const none)).ti_infected
+              (Gen.Measles.setPrognosesTimers 0 0 d s g (Gen.Measles.Timers.const none)).ti_recovered = false) := by
   first
   | (right; decide +kernel)
-  | (left; intro now d s g hd hu
+  | (left; intro now simNow d s g hd hu
      simp only [Gen.Measles.setPrognosesTimers, Gen.Measles.Timers.const, Gen.Measles.SetPrognosesD.nonneg, oadd, leOpt] at *
      grind)
 
 /-- Ebola: exposure now ≤ onset ≤ severe, recovery, death; burial at or after death. -/
-theorem C13_ebola_timers (now : Rat) (d : Gen.Ebola.SetPrognosesD) (s : Gen.Ebola.Flags) (g : Gen.Ebola.SetPrognosesTG)
+theorem C13_ebola_timers (now simNow : Rat) (d : Gen.Ebola.SetPrognosesD) (s : Gen.Ebola.Flags) (g : Gen.Ebola.SetPrognosesTG)
     (t : Gen.Ebola.Timers) (hd : d.nonneg) (hu : g.p_uids = true) (hf : t = Gen.Ebola.Timers.const none) :
-    (Gen.Ebola.setPrognosesTimers now d s g t).ti_exposed = some now ∧
-    leOpt (some now) (Gen.Ebola.setPrognosesTimers now d s g t).ti_infected = true ∧
-    leOpt (Gen.Ebola.setPrognosesTimers now d s g t).ti_infected (Gen.Ebola.setPrognosesTimers now d s g t).ti_severe = true ∧
-    leOpt (Gen.Ebola.setPrognosesTimers now d s g t).ti_infected (Gen.Ebola.setPrognosesTimers now d s g t).ti_recovered = true ∧
-    leOpt (Gen.Ebola.setPrognosesTimers now d s g t).ti_infected (Gen.Ebola.setPrognosesTimers now d s g t).ti_dead = true ∧
-    leOpt (Gen.Ebola.setPrognosesTimers now d s g t).ti_dead (Gen.Ebola.setPrognosesTimers now d s g t).ti_buried = true := by
+    (Gen.Ebola.setPrognosesTimers now simNow d s g t).ti_exposed = some now ∧
+    leOpt (some now) (Gen.Ebola.setPrognosesTimers now simNow d s g t).ti_infected = true ∧
+    leOpt (Gen.Ebola.setPrognosesTimers now simNow d s g t).ti_infected (Gen.Ebola.setPrognosesTimers now simNow d s g t).ti_severe = true ∧
+    leOpt (Gen.Ebola.setPrognosesTimers now simNow d s g t).ti_infected (Gen.Ebola.setPrognosesTimers now simNow d s g t).ti_recovered = true ∧
+    leOpt (Gen.Ebola.setPrognosesTimers now simNow d s g t).ti_infected (Gen.Ebola.setPrognosesTimers now simNow d s g t).ti_dead = true ∧
+    leOpt (Gen.Ebola.setPrognosesTimers now simNow d s g t).ti_dead (Gen.Ebola.setPrognosesTimers now simNow d s g t).ti_buried = true := by
   subst hf
   simp only [Gen.Ebola.setPrognosesTimers, Gen.Ebola.Timers.const, Gen.Ebola.SetPrognosesD.nonneg, oadd, leOpt] at *
   grind
 
 /-- Cholera, relative to the infection event (exposure): everything is scheduled at or after it, symptoms at the onset. -/
-theorem C13_cholera_timers (now : Rat) (d : Gen.Cholera.SetPrognosesD) (s : Gen.Cholera.Flags) (g : Gen.Cholera.SetPrognosesTG)
+theorem C13_cholera_timers (now simNow : Rat) (d : Gen.Cholera.SetPrognosesD) (s : Gen.Cholera.Flags) (g : Gen.Cholera.SetPrognosesTG)
     (t : Gen.Cholera.Timers) (hd : d.nonneg) (hu : g.p_uids = true) (hf : t = Gen.Cholera.Timers.const none) :
-    (Gen.Cholera.setPrognosesTimers now d s g t).ti_exposed = some now ∧
-    leOpt (some now) (Gen.Cholera.setPrognosesTimers now d s g t).ti_infected = true ∧
-    leOpt (some now) (Gen.Cholera.setPrognosesTimers now d s g t).ti_recovered = true ∧
-    leOpt (Gen.Cholera.setPrognosesTimers now d s g t).ti_infected (Gen.Cholera.setPrognosesTimers now d s g t).ti_symptomatic = true ∧
-    leOpt (Gen.Cholera.setPrognosesTimers now d s g t).ti_infected (Gen.Cholera.setPrognosesTimers now d s g t).ti_dead = true := by
+    (Gen.Cholera.setPrognosesTimers now simNow d s g t).ti_exposed = some now ∧
+    leOpt (some now) (Gen.Cholera.setPrognosesTimers now simNow d s g t).ti_infected = true ∧
+    leOpt (some now) (Gen.Cholera.setPrognosesTimers now simNow d s g t).ti_recovered = true ∧
+    leOpt (Gen.Cholera.setPrognosesTimers now simNow d s g t).ti_infected (Gen.Cholera.setPrognosesTimers now simNow d s g t).ti_symptomatic = true ∧
+    leOpt (Gen.Cholera.setPrognosesTimers now simNow d s g t).ti_infected (Gen.Cholera.setPrognosesTimers now simNow d s g t).ti_dead = true := by
   subst hf
   simp only [Gen.Cholera.setPrognosesTimers, Gen.Cholera.Timers.const, Gen.Cholera.SetPrognosesD.nonneg, oadd, leOpt] at *
   grind
@@ -464,24 +465,24 @@ theorem C13_cholera_timers (now : Rat) (d : Gen.Cholera.SetPrognosesD) (s : Gen.
     (`ti_exposed + dur`) while the onset is `ti + dur_exp2inf`: recovery can precede the onset (E → R without ever
     being `infected`). -/
 theorem C13_cholera_timers_onset :
-    (∀ (now : Rat) (d : Gen.Cholera.SetPrognosesD) (s : Gen.Cholera.Flags) (g : Gen.Cholera.SetPrognosesTG),
+    (∀ (now simNow : Rat) (d : Gen.Cholera.SetPrognosesD) (s : Gen.Cholera.Flags) (g : Gen.Cholera.SetPrognosesTG),
       d.nonneg → g.p_uids = true →
-      leOpt (Gen.Cholera.setPrognosesTimers now d s g (Gen.Cholera.Timers.const none)).ti_infected
-            (Gen.Cholera.setPrognosesTimers now d s g (Gen.Cholera.Timers.const none)).ti_recovered = true)
+      leOpt (Gen.Cholera.setPrognosesTimers now simNow d s g (Gen.Cholera.Timers.const none)).ti_infected
+            (Gen.Cholera.setPrognosesTimers now simNow d s g (Gen.Cholera.Timers.const none)).ti_recovered = true)
     ∨ (∃ d ∈ Gen.Cholera.SetPrognosesD.all01, ∃ g : Gen.Cholera.SetPrognosesTG, ∃ s : Gen.Cholera.Flags, g.p_uids = true ∧ d.nonneg ∧
-        leOpt (Gen.Cholera.setPrognosesTimers 0 d s g (Gen.Cholera.Timers.const none)).ti_infected
-              (Gen.Cholera.setPrognosesTimers 0 d s g (Gen.Cholera.Timers.const none)).ti_recovered = false) := by
+        leOpt (Gen.Cholera.setPrognosesTimers 0 0 d s g (Gen.Cholera.Timers.const none)).ti_infected
+              (Gen.Cholera.setPrognosesTimers 0 0 d s g (Gen.Cholera.Timers.const none)).ti_recovered = false) := by
   first
   | (right; decide +kernel)
-  | (left; intro now d s g hd hu
+  | (left; intro now simNow d s g hd hu
      simp only [Gen.Cholera.setPrognosesTimers, Gen.Cholera.Timers.const, Gen.Cholera.SetPrognosesD.nonneg, oadd, leOpt] at *
      grind)
 
 /-- Gonorrhea, first infection: a scheduled clearance is at or after the infection. -/
-theorem C13_gonorrhea_timers (now : Rat) (d : Gen.Gonorrhea.SetPrognosesD) (s : Gen.Gonorrhea.Flags) (g : Gen.Gonorrhea.SetPrognosesTG)
+theorem C13_gonorrhea_timers (now simNow : Rat) (d : Gen.Gonorrhea.SetPrognosesD) (s : Gen.Gonorrhea.Flags) (g : Gen.Gonorrhea.SetPrognosesTG)
     (t : Gen.Gonorrhea.Timers) (hd : d.nonneg) (hu : g.p_uids = true) (hf : t = Gen.Gonorrhea.Timers.const none) :
-    (Gen.Gonorrhea.setPrognosesTimers now d s g t).ti_infected = some now ∧
-    leOpt (some now) (Gen.Gonorrhea.setPrognosesTimers now d s g t).ti_clearance = true := by
+    (Gen.Gonorrhea.setPrognosesTimers now simNow d s g t).ti_infected = some now ∧
+    leOpt (some now) (Gen.Gonorrhea.setPrognosesTimers now simNow d s g t).ti_clearance = true := by
   subst hf
   simp only [Gen.Gonorrhea.setPrognosesTimers, Gen.Gonorrhea.Timers.const, Gen.Gonorrhea.SetPrognosesD.nonneg, oadd, leOpt] at *
   grind
@@ -490,36 +491,59 @@ theorem C13_gonorrhea_timers (now : Rat) (d : Gen.Gonorrhea.SetPrognosesD) (s : 
     was scheduled before, OR today's defect is exhibited: `set_prognoses` reschedules `ti_clearance` only for the `p_clear`
     fraction, so an agent infected at step 1 can keep a clearance time 0 from an earlier infection. -/
 theorem C13_gonorrhea_timers_reinfection :
-    (∀ (now : Rat) (d : Gen.Gonorrhea.SetPrognosesD) (s : Gen.Gonorrhea.Flags) (g : Gen.Gonorrhea.SetPrognosesTG) (t : Gen.Gonorrhea.Timers),
-      d.nonneg → g.p_uids = true → leOpt (some now) (Gen.Gonorrhea.setPrognosesTimers now d s g t).ti_clearance = true)
+    (∀ (now simNow : Rat) (d : Gen.Gonorrhea.SetPrognosesD) (s : Gen.Gonorrhea.Flags) (g : Gen.Gonorrhea.SetPrognosesTG) (t : Gen.Gonorrhea.Timers),
+      d.nonneg → g.p_uids = true → leOpt (some now) (Gen.Gonorrhea.setPrognosesTimers now simNow d s g t).ti_clearance = true)
     ∨ (∃ d ∈ Gen.Gonorrhea.SetPrognosesD.all01, ∃ g : Gen.Gonorrhea.SetPrognosesTG, ∃ s : Gen.Gonorrhea.Flags, g.p_uids = true ∧ d.nonneg ∧
-        leOpt (some 1) (Gen.Gonorrhea.setPrognosesTimers 1 d s g (Gen.Gonorrhea.Timers.const (some 0))).ti_clearance = false) := by
+        leOpt (some 1) (Gen.Gonorrhea.setPrognosesTimers 1 1 d s g (Gen.Gonorrhea.Timers.const (some 0))).ti_clearance = false) := by
   first
   | (right; decide +kernel)
-  | (left; intro now d s g t hd hu
+  | (left; intro now simNow d s g t hd hu
      simp only [Gen.Gonorrhea.setPrognosesTimers, Gen.Gonorrhea.SetPrognosesD.nonneg, oadd, leOpt] at *
      grind)
 
 /-- HIV: the infection time is the current step (death is requested, not scheduled, by `step_state`). -/
-theorem C13_hiv_timers (now : Rat) (d : Gen.Hiv.SetPrognosesD) (s : Gen.Hiv.Flags) (g : Gen.Hiv.SetPrognosesTG)
+theorem C13_hiv_timers (now simNow : Rat) (d : Gen.Hiv.SetPrognosesD) (s : Gen.Hiv.Flags) (g : Gen.Hiv.SetPrognosesTG)
     (t : Gen.Hiv.Timers) (hu : g.p_uids = true) :
-    (Gen.Hiv.setPrognosesTimers now d s g t).ti_infected = some now := by
+    (Gen.Hiv.setPrognosesTimers now simNow d s g t).ti_infected = some now := by
   simp only [Gen.Hiv.setPrognosesTimers] at *
   grind
 
 /-- Syphilis: exposure and infection now ≤ primary ≤ secondary. -/
-theorem C13_syphilis_timers (now : Rat) (d : Gen.Syphilis.SetPrognosesD) (s : Gen.Syphilis.Flags) (g : Gen.Syphilis.SetPrognosesTG)
+theorem C13_syphilis_timers (now simNow : Rat) (d : Gen.Syphilis.SetPrognosesD) (s : Gen.Syphilis.Flags) (g : Gen.Syphilis.SetPrognosesTG)
     (t : Gen.Syphilis.Timers) (hd : d.nonneg) (hu : g.p_uids = true) :
-    (Gen.Syphilis.setPrognosesTimers now d s g t).ti_infected = some now ∧
-    (Gen.Syphilis.setPrognosesTimers now d s g t).ti_exposed = some now ∧
-    leOpt (some now) (Gen.Syphilis.setPrognosesTimers now d s g t).ti_primary = true ∧
-    leOpt (Gen.Syphilis.setPrognosesTimers now d s g t).ti_primary (Gen.Syphilis.setPrognosesTimers now d s g t).ti_secondary = true := by
+    (Gen.Syphilis.setPrognosesTimers now simNow d s g t).ti_infected = some now ∧
+    (Gen.Syphilis.setPrognosesTimers now simNow d s g t).ti_exposed = some now ∧
+    leOpt (some now) (Gen.Syphilis.setPrognosesTimers now simNow d s g t).ti_primary = true ∧
+    leOpt (Gen.Syphilis.setPrognosesTimers now simNow d s g t).ti_primary (Gen.Syphilis.setPrognosesTimers now simNow d s g t).ti_secondary = true := by
   simp only [Gen.Syphilis.setPrognosesTimers, Gen.Syphilis.SetPrognosesD.nonneg, oadd, leOpt] at *
   grind
 
 /-- non-vacuity: durations all 1 are non-negative; the fresh timer record exists -/
 example : (Gen.Sir.SetPrognosesD.all01.all fun d => decide d.nonneg) = true := by decide +kernel
-example : (Gen.Sir.setPrognosesTimers 3 ⟨2, 5⟩ ⟨true, false, false⟩ ⟨true, true⟩ (Gen.Sir.Timers.const none)).ti_dead = some 5 := by decide +kernel
+example : (Gen.Sir.setPrognosesTimers 3 1 ⟨2, 5⟩ ⟨true, false, false⟩ ⟨true, true⟩ (Gen.Sir.Timers.const none)).ti_dead = some 5 := by decide +kernel
+
+/-- **One clock.**  A module counts its own steps (`self.ti` = `now`); the simulation counts its own (`self.sim.ti` =
+    `simNow`), and the two differ as soon as the module is given its own `dt` / `unit`.  `ti_infected` (and the step that
+    `update_results` counts) is in the module's clock, so every time `set_prognoses` schedules must be too: for every
+    disease the regenerated timer function does not depend on the simulation's step index at all.  (A write such as
+    `ti_recovered = self.sim.ti + dur` makes the regenerated function mention `simNow` and this stops elaborating; the
+    ordering theorems above fail with it, since they hold for EVERY pair `now`, `simNow`.) -/
+theorem C13_timers_own_clock (now a b : Rat) :
+    (∀ d s g t, Gen.Sir.setPrognosesTimers now a d s g t = Gen.Sir.setPrognosesTimers now b d s g t) ∧
+    (∀ d s g t, Gen.Sis.setPrognosesTimers now a d s g t = Gen.Sis.setPrognosesTimers now b d s g t) ∧
+    (∀ d s g t, Gen.Measles.setPrognosesTimers now a d s g t = Gen.Measles.setPrognosesTimers now b d s g t) ∧
+    (∀ d s g t, Gen.Ebola.setPrognosesTimers now a d s g t = Gen.Ebola.setPrognosesTimers now b d s g t) ∧
+    (∀ d s g t, Gen.Cholera.setPrognosesTimers now a d s g t = Gen.Cholera.setPrognosesTimers now b d s g t) ∧
+    (∀ d s g t, Gen.Gonorrhea.setPrognosesTimers now a d s g t = Gen.Gonorrhea.setPrognosesTimers now b d s g t) ∧
+    (∀ d s g t, Gen.Hiv.setPrognosesTimers now a d s g t = Gen.Hiv.setPrognosesTimers now b d s g t) ∧
+    (∀ d s g t, Gen.Syphilis.setPrognosesTimers now a d s g t = Gen.Syphilis.setPrognosesTimers now b d s g t) :=
+  ⟨fun _ _ _ _ => rfl, fun _ _ _ _ => rfl, fun _ _ _ _ => rfl, fun _ _ _ _ => rfl,
+   fun _ _ _ _ => rfl, fun _ _ _ _ => rfl, fun _ _ _ _ => rfl, fun _ _ _ _ => rfl⟩
+
+/-- non-vacuity of the two-clock statement: a module on half the simulation's step is at its step 16 while the simulation
+    is at step 8; a recovery scheduled as `simNow + 6` would fall before the infection recorded at `now` -/
+example : leOpt (some (16 : Rat)) (oadd (some 8) (some 6)) = false := by decide +kernel
+example : (Gen.Sis.setPrognosesTimers 16 8 ⟨6⟩ ⟨false, true⟩ ⟨true⟩ ⟨none, none⟩).ti_recovered = some 22 := by decide +kernel
 end timers
 
 /-! ## Where immunity is permanent: cumulative infections = number of distinct agents ever infected -/
